@@ -637,6 +637,45 @@ def zeros_warm_history(res, r, tier, viol_cap):
                 break
 
 
+def stationary_start(res, r, viol_cap):
+    """measurements the uniform start already explains exactly (noise-free answers of a uniform population, or only the total measured):
+    the loss cannot decrease, and estimation must still complete and hand back the (optimal) uniform tables"""
+    from mbi import LocalInference
+    names = r.sample(['a', 'b', 'c', 'd', 'e'], 4)
+    dom = [[a, r.choice([2, 3])] for a in names]
+    sizes = dict(map(tuple, dom))
+    fam = [[names[0], names[1]], [names[2], names[3]]] if r.random() < 0.5 else [[names[0], names[1]], [names[1], names[2]], [names[3]]]
+    T = r.choice([1.0, 100.0, 1e4])
+    totals_only = r.random() < 0.5
+    meas = []
+    for cl in fam:
+        n = int(np.prod([sizes[x] for x in cl]))
+        if totals_only:
+            meas.append((np.ones((1, n)), np.array([T]), 1.0, tuple(cl)))
+        else:
+            meas.append((np.eye(n), np.full(n, T / n), 1.0, tuple(cl)))
+    for oracle in ORACLES:
+        iters = r.choice([1, 10, 60])
+        canon = {'dom': dom, 'cliques': fam, 'total': T, 'oracle': oracle, 'iters': iters, 'history': 'stationary-start', 'totals_only': totals_only}
+        res.case(canon, True)
+        res.count('stationary start (the uniform tables are already optimal)')
+        try:
+            with np.errstate(all='ignore'):
+                model = LocalInference(rggen.mk_domain(dom), marginal_oracle=oracle, iters=iters).estimate(meas, total=T)
+        except BaseException as e:
+            if isinstance(e, KeyboardInterrupt):
+                raise
+            viol_cap('failing-input', f'oracle {oracle!r}, iters {iters}, total {T}: estimate raises {type(e).__name__} on measurements the uniform start explains exactly '
+                     f'(cliques {fam}, {"totals only" if totals_only else "exact uniform answers"})', {'request': canon}, f'local:stationary:raises:{type(e).__name__}')
+            continue
+        for Q, y, sg, cl in meas:
+            x = np.asarray(model.project(cl).datavector(), dtype=float)
+            if not np.all(np.isfinite(x)) or x.min() < 0 or abs(x.sum() - T) > 1e-6 * T or float(np.abs(Q @ x - y).max()) > 1e-6 * T:
+                viol_cap('failing-input', f'oracle {oracle!r}, iters {iters}, total {T}: the uniform start fits the measurements on {list(cl)} exactly, the returned table does not '
+                         f'(sum {x.sum()!r}, residual {float(np.abs(Q @ x - y).max())!r})', {'request': canon}, 'local:stationary:worse')
+                break
+
+
 def run(res, drv, tier, seed):
     if tier != 'quick':
         for q in PINNED:
@@ -654,6 +693,7 @@ def run(res, drv, tier, seed):
         one_case(res, drv, r, tier, viol_cap, idx, limit - (time.time() - t0))
     for _ in range(1 if tier == 'quick' else 8):
         zeros_warm_history(res, r, tier, viol_cap)
+        stationary_start(res, r, viol_cap)
     sub = res.extra.get('suboptimality', [])
     if sub:
         res.extra['worst_suboptimality_local_at_200'] = max([s[2] for s in sub if s[1] >= 200], default=None)
